@@ -23,36 +23,54 @@ func init() {
 // completed file that does not match is reported failed and nothing of it is
 // delivered.
 func H_C01_Transfer(v *verifrt.T) {
+	n := v.Param("PARTS", 2)
 	size := v.Int64("size")
-	v.Assume(size >= 2)
+	v.Assume(size >= int64(n))
 	v.Assume(size <= 4096)
-	m := v.Int64("split")
-	v.Assume(m >= 1)
-	v.Assume(m < size)
+	// n parts with symbolic boundaries 0 = b0 < b1 < ... < bn = size
+	bounds := []int64{0}
+	for k := 1; k < n; k++ {
+		m := v.Int64("split")
+		v.Assume(m > bounds[k-1])
+		v.Assume(m < size-int64(n-k-1))
+		bounds = append(bounds, m)
+	}
+	bounds = append(bounds, size)
 	h1 := v.Version("v1", size)
 	v.Version("junk", size)
 	e := newEnv(v)
-	order := v.Choose("order", 2)
-	corrupt := v.Choose("corrupt-part", 3) // 0 none, 1 first, 2 second
-	dup := v.Choose("duplicate", 2)
-	restart := v.Param("RESTART", 0) == 1 && v.Choose("restart", 2) == 1
-	type part struct{ beg, end int64 }
-	parts := []part{{0, m}, {m, size}}
-	if order == 1 {
-		parts[0], parts[1] = parts[1], parts[0]
+	// arrival order: any permutation of the parts
+	left := make([]int, n)
+	for k := range left {
+		left[k] = k
 	}
-	for k, p := range parts {
+	var order []int
+	for len(left) > 0 {
+		j := 0
+		if len(left) > 1 {
+			j = v.Choose("next-part", len(left))
+		}
+		order = append(order, left[j])
+		left = append(left[:j], left[j+1:]...)
+	}
+	corrupt := v.Choose("corrupt-part", n+1) - 1 // -1 none, else the index of the part whose bytes are wrong
+	dup := v.Choose("duplicate", n+1) - 1        // -1 none, else the position in the arrival order that is sent twice
+	restartAt := -1
+	if v.Param("RESTART", 0) == 1 {
+		restartAt = v.Choose("restart-before-arrival", n+1) - 1
+	}
+	for k, idx := range order {
 		src := "v1"
-		if corrupt == k+1 {
+		if corrupt == idx {
 			src = "junk"
 		}
-		if restart && k == 1 {
+		if restartAt == k && k > 0 {
 			e.restart()
 		}
-		err := e.sendPart("a", "", h1, size, p.beg, p.end, src)
+		err := e.sendPart("a", "", h1, size, bounds[idx], bounds[idx+1], src)
 		v.Assert(err == nil, "C01 a part is received without error")
-		if dup == 1 && k == 0 {
-			err = e.sendPart("a", "", h1, size, p.beg, p.end, src)
+		if dup == k && k < n-1 {
+			err = e.sendPart("a", "", h1, size, bounds[idx], bounds[idx+1], src)
 			v.Assert(err == nil, "C01 a duplicate part is received without error")
 		}
 	}
@@ -67,7 +85,7 @@ func H_C01_Transfer(v *verifrt.T) {
 	for _, r := range e.logger.records {
 		v.Assert(r.hash == h1 && r.name == "a", "C01 the receive log names only the announced version")
 	}
-	if corrupt == 0 {
+	if corrupt < 0 {
 		v.Assert(len(finalFiles) == 1, "C01 an intact transfer is delivered")
 		v.Assert(status == sts.ConfirmPassed, "C01 an intact, delivered file is confirmed")
 		v.Reach("delivered")
